@@ -296,10 +296,13 @@ func (m *Mempool[T]) Top(
 // best txs to build without holding the lock during the duration of the build
 // process. Streaming in batches allows for various state prefetching operations.
 func (m *Mempool[T]) StartStreaming(_ context.Context) {
+	// Wait for the previous stream to finish before taking [m.mu]:
+	// [FinishStreaming] needs [m.mu] to release [m.streamLock].
+	m.streamLock.Lock()
+
 	m.mu.Lock()
 	defer m.mu.Unlock()
 
-	m.streamLock.Lock()
 	m.streamedItems = set.NewSet[ids.ID](maxPrealloc)
 }
 
